@@ -21,6 +21,7 @@
 #include <utility>
 #include "simd_shim.hpp"
 #define float vt::sf32
+#define double vt::sf64
 #endif
 #include <glm/detail/setup.hpp>
 namespace glm { namespace detail {
@@ -57,6 +58,7 @@ namespace glm { namespace detail {
 }}
 #ifdef VT_SIMD
 #undef float
+#undef double
 #endif
 #include <sstream>
 #include <memory>
